@@ -35,9 +35,56 @@ def gen_engine():
     if plus + wrap != 2:
         raise GenError(f"control_logic.rs: expected two seed sums, found + x{plus}, wrapping x{wrap}")
     ovf = plus > 0
-    facts = {"engine.alias_current": alias, "engine.warnings_cleared": warn,
+    # 6. continue_internal tests can_continue before `recursive_continue_count += 1`
+    pr = strip_comments(vlib.repo_file("runtime/src/story/progress.rs"))
+    body = fn_body(pr, "continue_internal")
+    i_inc = body.find("self.recursive_continue_count += 1")
+    i_chk = body.find("!self.can_continue()")
+    if i_inc < 0 or i_chk < 0:
+        raise GenError("continue_internal: counter increment / can_continue test not found")
+    cont_first = i_chk < i_inc
+    # 7. warnings cleared after delivery to the handler
+    m = re.search(r"Some\(on_err\)\s*=>\s*\{", body)
+    if not m:
+        raise GenError("continue_internal: handler branch not found")
+    hb = body[m.end():body.index("None =>", m.end())]
+    if "reset_errors()" not in hb:
+        raise GenError("continue_internal: handler branch no longer resets errors")
+    warn = warn or "reset_warnings()" in hb
+    # 8. choose_path_string resolves the path before reset_callstack; set_chosen_path order
+    nav = strip_comments(vlib.repo_file("runtime/src/story/navigation.rs"))
+    body = fn_body(nav, "choose_path_string")
+    i_res = body.find("pointer_at_path(")
+    i_rst = body.find("reset_callstack()")
+    if i_rst < 0:
+        raise GenError("choose_path_string: reset_callstack() not found")
+    scp = fn_body(ss, "set_chosen_path")
+    i_clr = scp.find("current_choices.clear()")
+    i_ptr = scp.find("pointer_at_path(")
+    if i_clr < 0 or i_ptr < 0:
+        raise GenError("set_chosen_path: clear()/pointer_at_path not found")
+    path_first = (0 <= i_res < i_rst) and (i_ptr < i_clr) and ("validate_arguments(" in body and body.find("validate_arguments(") < i_rst)
+    if (0 <= i_res < i_rst) != (i_ptr < i_clr):
+        raise GenError("choose_path_string / set_chosen_path: half-applied ordering, model has no such variant")
+    # 9. evaluate_function validates arguments before reset_output
+    body = fn_body(nav, "evaluate_function")
+    i_val = body.find("validate_arguments(")
+    i_out = body.find("reset_output(")
+    if i_out < 0:
+        raise GenError("evaluate_function: reset_output not found")
+    eval_first = 0 <= i_val < i_out
+    # 10. string-evaluation guard of call_external_function
+    ext = strip_comments(vlib.repo_file("runtime/src/story/external_functions.rs"))
+    body = fn_body(ext, "call_external_function")
+    m = re.search(r"if\s+(!?)func_def\.lookahead_safe\s*&&\s*self\.get_state\(\)\.in_string_evaluation\(\)", body)
+    if not m:
+        raise GenError("call_external_function: string-evaluation guard not recognised")
+    guard_fixed = m.group(1) == "!"
+    facts = {"engine.cont_check_first": cont_first, "engine.path_validated_first": path_first,
+             "engine.eval_args_first": eval_first, "engine.ext_guard_fixed": guard_fixed}
+    facts.update({"engine.alias_current": alias, "engine.warnings_cleared": warn,
              "engine.observer_removal_checked": ob_checked, "engine.remove_flow_checked": rf_checked,
-             "engine.ovf_panics": ovf}
+             "engine.ovf_panics": ovf})
     b = lambda x: "true" if x else "false"
     out = ("(* GENERATED by tools/gen_engine.py from runtime/src/{story_state.rs,story/variable_observer.rs,"
            "story/control_logic.rs} — do not edit *)\n"
@@ -45,5 +92,9 @@ def gen_engine():
            f"Definition warnings_cleared : bool := {b(warn)}.\n"
            f"Definition observer_removal_checked : bool := {b(ob_checked)}.\n"
            f"Definition remove_flow_checked : bool := {b(rf_checked)}.\n"
-           f"Definition seed_ovf_panics : bool := {b(ovf)}.\n")
+           f"Definition seed_ovf_panics : bool := {b(ovf)}.\n"
+           f"Definition cont_check_first : bool := {b(cont_first)}.\n"
+           f"Definition path_validated_first : bool := {b(path_first)}.\n"
+           f"Definition eval_args_first : bool := {b(eval_first)}.\n"
+           f"Definition ext_guard_fixed : bool := {b(guard_fixed)}.\n")
     return write_if_changed("theories/Gen/EngineGen.v", out), facts
